@@ -1,7 +1,8 @@
 """C03 Sync gives a consistent snapshot, then a gap-free tail."""
+import re
 from mirlib import op_place, AnchorMissing, edge_label, switch_desc, describe_call, describe_operand, describe_place, describe_rvalue, dom_guards, guards, decision_paths, _suffix_match
 from rules import uplinks
-from rules.common import aggregates, callers_by_name, owner_def, where
+from rules.common import success_edge, callback_calls, aggregates, callers_by_name, owner_def, where
 
 META = {
     "explanation": (
@@ -112,36 +113,49 @@ def run(ctx):
         if len(us) != 1:
             r.bad("WriteQueues::pop/update-before-emit", ep[0].loc(), "WriteQueues::pop no longer calls update_sync_queues before emitting a live event: a pending snapshot can resurrect a stale entry")
             us = None
-        sw = pop.result_switches(ep[0])
-        ve = pop.variant_edges(sw[0]["block"]) if sw else None
+        some_e = success_edge(pop, ep[0], "Some")
         evs = aggregates(pop, "lanes::queues::ToWrite", "Event")
         if us:
-            r.check(ve is not None and pop.dominates(ve["Some"], us[0].block) and all(pop.dominates(us[0].block, a[0]) for a in evs) and bool(evs), "WriteQueues::pop/update-before-emit", us[0].loc(),
+            r.check(some_e is not None and (pop.dominates(some_e, us[0].block) or some_e == us[0].block) and all(pop.dominates(us[0].block, a[0]) for a in evs) and bool(evs), "WriteQueues::pop/update-before-emit", us[0].loc(),
                     "update_sync_queues(sync_queues, &action) dominates ToWrite::Event(action)", "an event can be emitted without updating the pending snapshots")
         if us:
             r.check("sync_queues" in describe_operand(pop, us[0].args[0]) and "pop(" in describe_operand(pop, us[0].args[1]), "WriteQueues::pop/update-args", us[0].loc(), "called with all sync queues and the popped action")
         up = ctx.saw(ag.fn(suffix="lanes::queues::update_sync_queues"))
-        rm = [c for c in up.calls if c.is_method("lanes::queues::SyncQueue", "remove")]
-        clr = [c for c in up.calls if c.is_method("lanes::queues::SyncQueue", "clear")]
+        # (directly in a loop, or handed to an iterator adapter as a closure or by name)
+        cbs = callback_calls(ag, up)
+        site = {id(x): blk for blk, x in cbs}
+        rm = [c for c in up.calls if c.is_method("lanes::queues::SyncQueue", "remove")] + [x for blk, x in cbs if x.is_method("lanes::queues::SyncQueue", "remove")]
+        clr = [c for c in up.calls if c.is_method("lanes::queues::SyncQueue", "clear")] + [x for blk, x in cbs if x.is_method("lanes::queues::SyncQueue", "clear")]
         if not rm:
             r.bad("update_sync_queues/keyed=>remove", where(up), "update_sync_queues no longer removes the key of an emitted event from the pending snapshots")
         if not clr:
             r.bad("update_sync_queues/clear=>clear-all", where(up), "update_sync_queues no longer empties the pending snapshots on Clear: entries cleared from the lane are re-sent by the sync")
+        def every_queue(blk):
+            """the effect is applied to every pending snapshot: inside `for q in queues` or handed to `queues.iter_mut().for_each(..)`"""
+            if any(d.startswith("disc(next(") and l == "Some" for d, l, _ in dom_guards(up, blk)):
+                return True
+            cl_ = up.call_at(blk)
+            return cl_ is not None and cl_.name in ("for_each", "for_each_mut") and bool(cl_.args) and re.match(r"^(iter_mut|iter|into_iter)\(", describe_operand(up, cl_.args[0])) is not None and "queues" in describe_operand(up, cl_.args[0])
         for c in rm:
-            g = guards(up, c.block)
+            blk = site.get(id(c), c.block)
+            g = guards(up, blk)
             v = set()
             for d, l, _ in g:
                 if d == "disc(action)":
                     v |= set(l.split("|"))
             r.check(v == {"Update", "Remove"}, "update_sync_queues/keyed=>remove", c.loc(), "Update|Remove remove the key from a queue (%s)" % sorted(v), "remove is applied for %s" % sorted(v))
-            srcs = up.sources(c.args[1])
-            r.check(any(s[0] == "field" and "key" in s[1].fields for s in srcs), "update_sync_queues/remove-by-key", c.loc(), "removed by the action's key")
-            g = dom_guards(up, c.block)
-            r.check(any(d.startswith("disc(next(") and l == "Some" for d, l, _ in g), "update_sync_queues/remove-for-every-queue", c.loc(), "inside the loop over all queues")
+            if id(c) in site:
+                cl_ = up.call_at(blk)
+                by_key = any("key" in describe_operand(up, a) for a in cl_.args)
+            else:
+                by_key = any(s[0] == "field" and "key" in s[1].fields for s in up.sources(c.args[1]))
+            r.check(by_key, "update_sync_queues/remove-by-key", c.loc(), "removed by the action's key")
+            r.check(every_queue(blk), "update_sync_queues/remove-for-every-queue", c.loc(), "applied to all queues")
         for c in clr:
-            g = dom_guards(up, c.block)
+            blk = site.get(id(c), c.block)
+            g = dom_guards(up, blk)
             v = [l for d, l, _ in g if d == "disc(action)"]
-            r.check(v and "Clear" in v[0].split("|") and any(d.startswith("disc(next(") and l == "Some" for d, l, _ in g), "update_sync_queues/clear=>clear-all", c.loc(), "Clear empties every queue")
+            r.check(v and "Clear" in v[0].split("|") and every_queue(blk), "update_sync_queues/clear=>clear-all", c.loc(), "Clear empties every queue")
         sq = ctx.saw(ag.fn(name="remove", self_adt="lanes::queues::SyncQueue"))
         r.check(any(c.name == "remove" and describe_operand(sq, c.args[0]).endswith("queue") for c in sq.calls) and any(c.name == "position" for c in sq.calls), "SyncQueue::remove/removes-position", where(sq),
                 "SyncQueue::remove deletes the key's position from the snapshot")
